@@ -27,6 +27,12 @@ def snapshot(u):
     s["wallet"] = {k: v for k, v in s["wallet"].items() if v != 0}  # a token with a zero balance is the same as no entry
     s["_books"] = multi.visible_books(u)
     s["_nact"] = len(u.static_actions)
+    if "aave" in u.m:
+        # derived views a user reads right after a (rejected) call: they must describe the same state as before
+        a = u.m["aave"]
+        s["_views"] = {"hf": a.health_factor, "supplies_value": {t.name: v for t, v in a.supplies_value.items()}, "collateral_value": {t.name: v for t, v in a.collateral_value.items()},
+                       "borrows_value": {t.name: v for t, v in a.borrows_value.items()}, "supplies": {t.name: (x.amount, bool(x.collateral)) for t, x in a.supplies.items()},
+                       "borrows": {t.name: x.amount for t, x in a.borrows.items()}}
     s["_last_tick"] = {k: (None if m.last_tick is None or m.last_tick != m.last_tick else int(m.last_tick)) for k, m in u.m.items() if k in ("uni", "squni")}
     return s
 
